@@ -17,6 +17,8 @@ structure HygId (sfx i : Str) : Prop where
   cpre : startsWith (cN sfx i) ncPrefix = false
   ncpre : startsWith (ncN i) ncPrefix = false
   notlog : (sfx != sLog) = true
+  cslash : (cN sfx i).contains '/' = false
+  ncslash : (ncN i).contains '/' = false
 
 structure HygPair (cfg : Cfg) (sfx i j : Str) : Prop where
   dropInj : dropMatch cfg (ncN i) (ncN j) = true → ncN j = ncN i
@@ -26,8 +28,8 @@ structure HygPair (cfg : Cfg) (sfx i j : Str) : Prop where
 
 theorem hygId_of {sfx i : Str} (h : hygId sfx i = true) : HygId sfx i := by
   simp only [hygId, Bool.and_eq_true, decide_eq_true_eq, Bool.not_eq_true'] at h
-  obtain ⟨⟨⟨⟨⟨⟨⟨⟨h1, h2⟩, h3⟩, h4⟩, h5⟩, h6⟩, h7⟩, h8⟩, h9⟩ := h
-  exact ⟨h1, h2, h3, h4, h5, h6, h7, h8, h9⟩
+  obtain ⟨⟨⟨⟨⟨⟨⟨⟨⟨⟨h1, h2⟩, h3⟩, h4⟩, h5⟩, h6⟩, h7⟩, h8⟩, h9⟩, h10⟩, h11⟩ := h
+  exact ⟨h1, h2, h3, h4, h5, h6, h7, h8, h9, h10, h11⟩
 
 theorem hygPair_of {cfg : Cfg} {sfx i j : Str} (h : hygPair cfg sfx i j = true) : HygPair cfg sfx i j := by
   simp only [hygPair, Bool.and_eq_true, Bool.or_eq_true, decide_eq_true_eq, Bool.not_eq_true',
@@ -195,7 +197,9 @@ theorem writeCore_root (hy : hyg cfg sfx ids = true) (h : Sim H sfx ids s d) {i 
         | false => rfl
         | true => exact absurd (hc.mp hb) hin
       rw [if_neg hin, hcf]
-      simp [writeBody, writeFile, hm, hsx]
+      have hsl := hid.cslash
+      simp only [List.contains_eq_mem, decide_eq_false_iff_not] at hsl
+      simp [writeBody, writeFile, hm, hsx, hsl]
 
 theorem sJson_ne_sLog : (sJson != sLog) = true := by decide
 
@@ -235,7 +239,9 @@ theorem writeCore_nc (hy : hyg cfg sfx ids = true) (h : Sim H sfx ids s d) {i : 
           have hna : ¬ s.mode = .a := fun e => hin ⟨this, e⟩
           simp [hna]
       rw [this, hcf2]
-      simp [writeBody, writeFile, hm, hsx]
+      have hsl := hid.ncslash
+      simp only [List.contains_eq_mem, decide_eq_false_iff_not] at hsl
+      simp [writeBody, writeFile, hm, hsx, hsl]
 
 
 /-! ### the loop of `drop_not_completed` -/
